@@ -15,7 +15,7 @@ Open Scope N_scope.
    one when no tags filter is set) that passes the filters. *)
 Theorem C03_decision : forall lim uf filt hnd h ch s off ep meta,
   h_streams h ch = Some s -> wf_stream s -> hnd = HNone \/ hnd = HNo ->
-  snd (sub_cache lim uf filt hnd h ch off ep meta) =
+  snd (sub_cache lim uf filt hnd h ch off ep meta []) =
   match cache_pick lim uf filt s with
   | Some p => if same_position s off ep then ROk true [] off (s_epoch s)
               else ROk true [p] off (s_epoch s)
@@ -29,7 +29,7 @@ Print Assumptions C03_decision.
    tags filters is delivered; nothing else ever is. *)
 Theorem C03_at_most_newest_visible : forall lim uf filt hnd h ch s off ep meta,
   reachable h -> h_streams h ch = Some s -> hnd = HNone \/ hnd = HNo ->
-  let pubs := res_pubs (snd (sub_cache lim uf filt hnd h ch off ep meta)) in
+  let pubs := res_pubs (snd (sub_cache lim uf filt hnd h ch off ep meta [])) in
   pubs = [] \/ exists p, pubs = [p] /\ newest_vis uf filt s = Some p.
 Proof. exact cache_at_most_newest_visible. Qed.
 Print Assumptions C03_at_most_newest_visible.
@@ -38,7 +38,7 @@ Print Assumptions C03_at_most_newest_visible.
    client holds the current position (the "only if" half of the property). *)
 Theorem C03_recovered_only_if : forall lim uf filt hnd h ch s off ep meta,
   reachable h -> h_streams h ch = Some s -> hnd = HNone \/ hnd = HNo ->
-  is_recovered (snd (sub_cache lim uf filt hnd h ch off ep meta)) = true ->
+  is_recovered (snd (sub_cache lim uf filt hnd h ch off ep meta [])) = true ->
   s_items s <> [] \/ same_position s off ep = true.
 Proof. exact cache_recovered_implies. Qed.
 Print Assumptions C03_recovered_only_if.
@@ -47,7 +47,7 @@ Print Assumptions C03_recovered_only_if.
    non-zero offset, see C03_zero_position_refuted. *)
 Theorem C03_recovered_iff_unfiltered : forall lim filt hnd h ch s off ep meta,
   reachable h -> h_streams h ch = Some s -> hnd = HNone \/ hnd = HNo ->
-  (is_recovered (snd (sub_cache lim false filt hnd h ch off ep meta)) = true <->
+  (is_recovered (snd (sub_cache lim false filt hnd h ch off ep meta [])) = true <->
    s_items s <> [] \/ same_position s off ep = true).
 Proof. exact cache_recovered_iff_unfiltered. Qed.
 Print Assumptions C03_recovered_iff_unfiltered.
@@ -57,14 +57,22 @@ Print Assumptions C03_recovered_iff_unfiltered.
    present": see the refutation below. *)
 Theorem C03_recovered_iff_filtered : forall lim filt hnd h ch s off ep meta,
   reachable h -> h_streams h ch = Some s -> hnd = HNone \/ hnd = HNo ->
-  (is_recovered (snd (sub_cache lim true filt hnd h ch off ep meta)) = true <->
+  (is_recovered (snd (sub_cache lim true filt hnd h ch off ep meta [])) = true <->
    (exists p, find (fun it => negb (filt (i_id it))) (cache_scanned lim true s) = Some p) \/
    same_position s off ep = true).
 Proof. exact cache_recovered_iff_filtered. Qed.
 Print Assumptions C03_recovered_iff_filtered.
 
-Theorem C03_oracle_sound : forall off ep fl full recovered pubs,
-  cache_ok_on off ep fl full recovered pubs = true <-> CacheOn off ep fl full recovered pubs.
+(* For ANY broker state, request, cache-empty handler script (incl. one that
+   populates the channel with several publications) and ANY publications racing
+   the subscribe: at most one publication is delivered. *)
+Theorem C03_at_most_one : forall lim uf filt hnd h ch off ep meta race,
+  (length (res_pubs (snd (sub_cache lim uf filt hnd h ch off ep meta race))) <= 1)%nat.
+Proof. exact cache_at_most_one. Qed.
+Print Assumptions C03_at_most_one.
+
+Theorem C03_oracle_sound : forall off ep fl extra full recovered pubs,
+  cache_ok_on off ep fl extra full recovered pubs = true <-> CacheOn off ep fl extra full recovered pubs.
 Proof. exact cache_ok_on_sound. Qed.
 Print Assumptions C03_oracle_sound.
 
@@ -80,7 +88,7 @@ Theorem C03_recovered_iff_refuted :
   exists s, h_streams hA 0 = Some s /\ s_items s <> [] /\
     i_off (last (s_items s) (mkItem 0 0)) = s_top s /\
     same_position s 1 1 = false /\
-    snd (sub_cache 0 true (fun _ => true) HNone hA 0 1 1 0) = ROk false [] 2 1.
+    snd (sub_cache 0 true (fun _ => true) HNone hA 0 1 1 0 []) = ROk false [] 2 1.
 Proof.
   eexists. split; [vm_compute; reflexivity|]. vm_compute. repeat split; try reflexivity. discriminate.
 Qed.
@@ -91,14 +99,14 @@ Qed.
 Definition hB := fst (MemStream.run (hub_init 700 0) [History 0 (mkFilter None (-1) false) 0]).
 Theorem C03_zero_position_refuted :
   exists s, h_streams hB 0 = Some s /\ s_top s = 0 /\ s_epoch s = 1 /\
-    snd (sub_cache 0 false (fun _ => false) HNone hB 0 0 1 0) = ROk false [] 0 1.
+    snd (sub_cache 0 false (fun _ => false) HNone hB 0 0 1 0 []) = ROk false [] 0 1.
 Proof. eexists. split; [vm_compute; reflexivity|]. vm_compute. repeat split; reflexivity. Qed.
 
 (* non-vacuity of the positive theorems *)
 Example C03_examples :
-  snd (sub_cache 0 false (fun _ => false) HNone hA 0 0 0 0) = ROk true [mkItem 2 2] 0 1 /\
-  snd (sub_cache 0 true (fun id => id =? 2) HNone hA 0 1 1 0) = ROk true [mkItem 1 1] 1 1 /\
-  snd (sub_cache 1 true (fun id => id =? 2) HNone hA 0 1 1 0) = ROk false [] 2 1 /\
-  snd (sub_cache 0 false (fun _ => false) HNone hA 0 2 1 0) = ROk true [] 2 1 /\
-  snd (sub_cache 0 false (fun _ => false) (HPopulate 9 p5) hB 0 0 0 0) = ROk true [mkItem 1 9] 0 1.
+  snd (sub_cache 0 false (fun _ => false) HNone hA 0 0 0 0 []) = ROk true [mkItem 2 2] 0 1 /\
+  snd (sub_cache 0 true (fun id => id =? 2) HNone hA 0 1 1 0 []) = ROk true [mkItem 1 1] 1 1 /\
+  snd (sub_cache 1 true (fun id => id =? 2) HNone hA 0 1 1 0 []) = ROk false [] 2 1 /\
+  snd (sub_cache 0 false (fun _ => false) HNone hA 0 2 1 0 []) = ROk true [] 2 1 /\
+  snd (sub_cache 0 false (fun _ => false) (HPopulate [(9, p5)]) hB 0 0 0 0 []) = ROk true [mkItem 1 9] 0 1.
 Proof. vm_compute. repeat split; reflexivity. Qed.
